@@ -208,7 +208,7 @@ type mkRun struct {
 	ctx     context.Context
 	maxDep  int
 	capN    uint64
-	tiny    int // tiny capacity actually used
+	tiny    int  // tiny capacity actually used
 	touch   bool // every write is preceded by a Get of its key (bounded caches, every second run)
 }
 
@@ -525,6 +525,9 @@ func (m *mkRecorder) root(view [][2]bstr, h hash.Hash, cfg mkConfig, how string)
 		return
 	}
 	key := string(mustJSON(view))
+	if len(view) == 0 {
+		key = "[]" // (nil and empty slices are the same contents)
+	}
 	m.mu.Lock()
 	defer m.mu.Unlock()
 	id, ok := m.c2id[key]
@@ -590,7 +593,9 @@ func runBehaviour(b *mkBehaviour, cfg mkConfig, salt int, rec *mkRecorder) (res 
 		var f *mkFail
 		if perr := guard(func() {
 			f = r.apply(op, rec)
-			if f == nil {
+			// (read-before-write runs: reads perturb the node cache - every Get re-marks the LRU position - so these runs read
+			//  back only after commits and at the end; a write is then followed by the next write or the commit directly)
+			if f == nil && (!r.touch || op.A == "commit" || i == len(b.Ops)-1) {
 				f = r.checkReads(op)
 			}
 		}); perr != nil {
@@ -614,7 +619,89 @@ func runBehaviour(b *mkBehaviour, cfg mkConfig, salt int, rec *mkRecorder) (res 
 			return m, nops
 		}
 	}
+	if firstRead == nil && r.touch && cfg.ContReads && len(r.ovl) == 0 && r.ndb != nil {
+		// churn: what a long-running node does to a state tree under a bounded node cache - rounds of read, remove, commit,
+		// re-insert, commit over the keys the history left behind.  The root is a function of the contents: after the re-insert
+		// it is the root the tree had before, and every (contents, root) pair goes to TLC's functional check (TraceRoots.tla)
+		var f *mkFail
+		if perr := guard(func() { f = r.churn(rec, 6) }); perr != nil {
+			f = &mkFail{"panic", "churn: " + perr.Error()}
+		}
+		if f != nil {
+			return &mkMismatch{Config: cfg, Step: len(b.Ops), Op: "churn", Fail: f, CapN: r.capN, Depth: maxDep, OpsLite: liteOps(b.Ops)}, nops
+		}
+	}
 	return firstRead, nops
+}
+
+// churn: see runBehaviour.
+func (r *mkRun) churn(rec *mkRecorder, rounds int) *mkFail {
+	var view [][2]bstr
+	it := r.tree.NewIterator(r.ctx)
+	for it.Rewind(); it.Valid(); it.Next() {
+		view = append(view, [2]bstr{bstr(append([]byte{}, it.Key()...)), bstr(append([]byte{}, it.Value()...))})
+	}
+	err := it.Err()
+	it.Close()
+	if err != nil {
+		return failf("error", "churn: iterate: %v", err)
+	}
+	commit := func(v [][2]bstr, how string) (hash.Hash, *mkFail) {
+		_, h, cerr := r.tree.Commit(r.ctx, mkNs, r.version)
+		if cerr != nil {
+			return h, failf("error", "churn: Commit: %v", cerr)
+		}
+		r.root = node.Root{Namespace: mkNs, Version: r.version, Type: r.rootType(), Hash: h}
+		r.hasRoot = true
+		if ferr := r.ndb.Finalize([]node.Root{r.root}); ferr != nil {
+			return h, failf("error", "churn: Finalize: %v", ferr)
+		}
+		r.version++
+		rec.root(v, h, r.cfg, how)
+		return h, nil
+	}
+	base, f := commit(view, "churn")
+	if f != nil {
+		return f
+	}
+	without := map[int]hash.Hash{}
+	for round := 0; round < rounds; round++ {
+		for i := range view {
+			k, v := []byte(view[i][0]), []byte(view[i][1])
+			// a neighbour is read, then the key is removed and the batch committed straight away
+			if _, err := r.tree.Get(r.ctx, []byte(view[(i+1)%len(view)][0])); err != nil {
+				return failf("error", "churn: Get: %v", err)
+			}
+			if err := r.tree.Remove(r.ctx, k); err != nil {
+				return failf("error", "churn: Remove: %v", err)
+			}
+			rest := append(append([][2]bstr{}, view[:i]...), view[i+1:]...)
+			h, f := commit(rest, "churn")
+			if f != nil {
+				return f
+			}
+			if prev, ok := without[i]; ok && !prev.Equal(&h) {
+				return failf("root", "churn round %d: root %s after removing %x differs from the root %s the same contents had in an earlier round", round, h, k, prev)
+			}
+			without[i] = h
+			if err := r.tree.Insert(r.ctx, k, v); err != nil {
+				return failf("error", "churn: Insert: %v", err)
+			}
+			if h, f = commit(view, "churn"); f != nil {
+				return f
+			}
+			if !h.Equal(&base) {
+				return failf("root", "churn round %d: root %s after re-inserting %x differs from the root %s of the same contents", round, h, k, base)
+			}
+		}
+	}
+	for i := range view {
+		got, err := r.tree.Get(r.ctx, []byte(view[i][0]))
+		if err != nil || !bytes.Equal(got, []byte(view[i][1])) {
+			return failf("get", "churn: Get(%x) = %x, %v after the rounds; stored %x", []byte(view[i][0]), got, err, []byte(view[i][1]))
+		}
+	}
+	return nil
 }
 
 func hasEmbeddedLeaf(s *mkShape) bool {
